@@ -293,7 +293,10 @@ def on_structural_accept(ctx, lay, off, what, obj, loader, orig_bytes, desc, dat
             same_slot = pad(it_new["nbytes"]) == pad(it_old["nbytes"]) and not last
         except Exception:  # noqa: BLE001
             same_slot = False
-        if same_slot:
+        # ... and only for columns whose content the loader cannot cross-check: free-form uint8 blobs and ragged offset
+        # columns (stored as uint32 or uint64 by design).  A fixed-width data column has a prescribed type and a length
+        # tied to the table's row count, so an edit there must be refused.
+        if same_slot and (key in BLOB_KEYS or key.endswith("_offset")):
             ctx.violation(f"structural-accepted/descriptor-edit-preserves-packing/{field}",
                           f"{loader}: {desc}: {key} now {it_new['array_len']} x type {it_new['type']} in the same 8-aligned slot")
             return
